@@ -116,7 +116,7 @@ var rules = map[string]string{
 	"C15": "each evaluation is one complete scenario run on a fresh real server under one map-order plan (a deviating permutation at one dynamic range, or two in thorough); distinct plans by construction; every one is non-trivial because only ranges over >= 2 keys are deviated",
 	"C19": "each evaluation is one event sequence (1..4 configuration events) applied to a fresh server, followed by the comparison of all 24 effective settings and, where enabled, eight behaviour probes; non-trivial = ill-typed, non-positive, partial, wrapped/dotted or later-in-sequence payloads",
 	"C20": "each evaluation is one hover request at one position of one scenario (include tree or a graph with a file on two include paths; unsaved edits kept or discarded by closing) on a fresh server; distinct by construction; non-trivial = the aggregate spans at least two files",
-	"C18": "each evaluation is one scenario (declaration placement, settings, root, posting set, commodity shape; opened directly, after another document was analysed, or reached by an edit that adds the declarations) on a fresh server; distinct parameter vectors; non-trivial = a declaration lives outside the current file or a setting is off",
+	"C18": "each evaluation is one scenario (declaration placement, settings, root, posting set, commodity shape; opened directly, after another document was analysed - with the current file inside or outside the root journal's tree -, or reached by an edit that adds the declarations) on a fresh server; distinct parameter vectors; non-trivial = a declaration lives outside the current file or a setting is off",
 	"C16": "each evaluation is one completion request (layout, configuration, typed line, cursor) on the real server; distinct by construction; non-trivial = the set of names starting with the fragment is neither empty nor the whole table (counted once per fragment, for the first configuration of its group)",
 	"C09": "each evaluation is one references request (plus one rename request when declarations are included) at one cursor position of one scenario (optionally after a second analysis of the requesting document or after an unsaved edit was discarded) on a fresh server; scenarios are distinct parameter vectors; non-trivial = at least two files hold occurrences, or the request comes from a non-root file, or an open file differs from disk",
 	"C17": "geometry: one evaluation = one document tokenised (full + every line-interval range request); histories: one evaluation = one BFS transition replayed on a fresh server pair; non-trivial = the document has a delimiter-carrying / single-character lexeme or a multi-unit character before a token, or the history contains a delta answered with edits",
@@ -139,7 +139,7 @@ var assumptions = map[string][]string{
 	"C15": {"nondeterminism other than map order and goroutine order does not exist in the code (no rand, no pointer-keyed maps, no %p); the three clock-derived date completion items are avoided by the scenarios"},
 	"C19": {"the client answers workspace/configuration with its current settings", "configuration refreshes run to completion at spawn (inline schedule); their interleavings are C14's business"},
 	"C20": {"the hover markdown layout (**Balance:** lines '- <decimal> <commodity>', **Postings:** n, **Transactions:** n, **Usage:** n, **Amount:**, **Unit/Total cost:**) is parsed back; a change of layout is reported as missing figures"},
-	"C18": {"visibility = own file + include tree + workspace files when a root exists", "background analysis completed before reading the diagnostics (inline schedule)"},
+	"C18": {"visibility = own file + include tree + workspace files when a root exists (also for a document the root journal does not include)", "background analysis completed before reading the diagnostics (inline schedule)"},
 	"C16": {"'starts with' and 'matches' are case-insensitive, as the implementation's own matcher is"},
 	"C09": {"all documents are opened and their background analysis completed before the request (inline schedule)"},
 	"C17": {"the client applies SemanticTokensDelta edits to the array of its current result id only", "the rendered position map is the ground truth for lexeme extents"},
